@@ -36,7 +36,11 @@ def home_env(home):
     os.environ["HOME"] = home
     logging.disable(logging.CRITICAL)
     try:
-        yield str(Path.home())
+        try:
+            h = str(Path.home())
+        except RuntimeError:
+            h = None  # e.g. HOME="~": Path.home() cannot determine the directory
+        yield h
     finally:
         logging.disable(logging.NOTSET)
         if old is None:
@@ -140,3 +144,28 @@ def rand_pattern(rng, tilde, maxwords=3):
     ws = [rng.choice(WORDS) for _ in range(rng.randint(1, maxwords))]
     sep = " " if tilde else rng.choice([" ", "  ", "\t", " \u3000"])
     return sep.join(ws)
+
+
+# ---------------------------------------------------------------- rule families (helpers for C14)
+def line_family(parse_config, line):
+    """Which family a single config line feeds, measured on the implementation: 'mcp' (mcp_rules, after_mcp_rules),
+    'shell' (rules, redirect_rules, after_rules, aliases), 'setting', or None (blank, comment, rejected)."""
+    v, e = impl_parse(parse_config, line)
+    if e is not None:
+        return None
+    if v[4] or v[5]:
+        return "mcp"
+    if v[1] or v[2] or v[3] or v[6]:
+        return "shell"
+    if v[7] != "ask" or v[8] or v[9] == "1":
+        return "setting"
+    return None
+
+
+def family_view(v, fam):
+    """The part of a canonical view that belongs to one family (ConfigText.mcp_view / shell_view)."""
+    return [v[4], v[5]] if fam == "mcp" else [v[1], v[2], v[3], v[6]]
+
+
+def model_family_view(model, home, text, fam):
+    return family_view(model_parse(model, home, text), fam)
